@@ -2,6 +2,7 @@ package harness
 
 import (
 	"fmt"
+	"math/rand"
 	"testing"
 	"time"
 )
@@ -28,12 +29,25 @@ var (
 	stdSleeps = []int64{0, 0, 1, int64(time.Second), int64(time.Minute), int64(10 * time.Second), int64(2 * time.Hour)}
 )
 
+// ttlProfile picks the per-call TTL habit of one sequence: a third of the sequences never pass a TTL (so an
+// UnlimitedTTL cache never sees an expiration being set), a third use the standard mix, a third mostly pass one.
+func ttlProfile(rng *rand.Rand) []int64 {
+	switch rng.Intn(3) {
+	case 0:
+		return []int64{0}
+	case 1:
+		return stdTTLs
+	}
+
+	return []int64{0, int64(time.Hour), -int64(time.Hour), int64(time.Second), 1, -1, int64(time.Minute), -int64(time.Minute)}
+}
+
 // TestC07 runs random operation sequences on the three backends and prints observations.
 func TestC07(t *testing.T) {
 	e := LoadEnv("C07")
 	cf := NewCaseFile("C07", "From Cache Require Import Base Backend Spec Check.", "check_c07")
 	cf.Rule = "random sequences of 1..60 ops (Write/Read/Delete/ExpireAll/DeleteAll/Len/Walk/Load/Store, SkipRead 1/8) over 3..8 keys " +
-		"from {empty, 1 byte, prefix pairs, binary, 64-byte pair}, 4 values incl. nil/zero, context TTL in {none,+1h,-1h,1s,1ns,-1ns}, " +
+		"from {empty, 1 byte, prefix pairs, binary, 64-byte pair}, 4 values incl. nil/zero, context TTL in {none,+1h,-1h,1s,1ns,-1ns} with a per-sequence habit (never / standard mix / mostly), " +
 		"sleeps 0..2h on the fake clock, 7 configs (default/unlimited/finite TTL, jitter off/default/0.5, LRU, LFU) x 3 backends; " +
 		"non-trivial = contains a hit, an expired read and a miss/delete; distinct = distinct Gallina term"
 	confs := stdConfs()
@@ -44,7 +58,7 @@ func TestC07(t *testing.T) {
 			conf := confs[e.Rng.Intn(len(confs))]
 			g := GenOpts{
 				Kinds: stdKinds, Keys: StdKeys(e.Rng, 3+e.Rng.Intn(6)), NOps: 1 + e.Rng.Intn(60),
-				TTLs: stdTTLs, Sleeps: stdSleeps, Rewrite: e.Rng.Intn(2) == 0,
+				TTLs: ttlProfile(e.Rng), Sleeps: stdSleeps, Rewrite: e.Rng.Intn(2) == 0,
 			}
 			r := RunBackendOps(t, e.Rng, fl, conf, g)
 			kinds := map[string]bool{}
